@@ -110,10 +110,20 @@ def run_case(args):
                     fails.append(("create_db_content_%s" % form, None))
             # (d) inspect
             if form in ("path", "list", "generator", "featuredb"):
+                shared = list(LOOK)       # the caller's own list, passed to several calls: it must come back untouched and every call must answer alike
                 for limit, key in ((None, "inspect0"), (2, "inspect2")):
-                    for look in (LOOK, ["featuretype"], ["chrom", "attribute_keys"], []):
+                    for look in (LOOK, ["featuretype"], ["chrom", "attribute_keys"], [], "default", "default", "shared", "shared"):
                         with S.quiet():
-                            r = gi.inspect(make_input(form, path, text, cl, store), look_for=list(look), limit=limit, verbose=False)
+                            if look == "default":     # look_for left to its default, more than once in one process
+                                r = gi.inspect(make_input(form, path, text, cl, store), limit=limit, verbose=False)
+                                look = LOOK
+                            elif look == "shared":
+                                r = gi.inspect(make_input(form, path, text, cl, store), look_for=shared, limit=limit, verbose=False)
+                                if shared != LOOK:
+                                    fails.append(("inspect_changed_callers_list_%s" % form, shared))
+                                look = LOOK
+                            else:
+                                r = gi.inspect(make_input(form, path, text, cl, store), look_for=list(look), limit=limit, verbose=False)
                         e = c[key]
                         expd = {"feature_count": e["feature_count"]}
                         for lk, ek in (("featuretype", "featuretype"), ("chrom", "chrom"), ("attribute_keys", "attribute_keys")):
@@ -153,7 +163,7 @@ def run(ctx):
         ctx.count((c["kinds"], c["cl"]), len(c["feats"]) > c["cl"] + 1 or any(n in (1, 2, 3) for n in c["feats"]))
     ctx.traces += len(cases) * len(FORMS)
     ctx.sample({"file": S.render(cases[-1]["kinds"]).splitlines(), "checklines": cases[-1]["cl"], "expected_features": cases[-1]["feats"], "forms": FORMS})
-    ctx.assumptions += ["URL input needs a network and is not run", "features are identified by their ID attribute f<position>"]
+    ctx.assumptions += ["URL input needs a network and is not run", "features are identified by their start coordinate (= position in the file)"]
 
 
 def replay(ctx, rec):
